@@ -14,6 +14,7 @@ R20d  untrusted lengths are bounded before allocation: every resize / with_capac
 R20e  varint range tests are the same in the writer (write_varint) and in the strict-mode size function
       (varint_size): both accept exactly min <= value <= max for 7 + 7k bits, k = 0..7.
 """
+import re
 from lib import mir
 from lib.mir import strip, show, walk, compare_norm, show_norm, linear, const_eval
 from rules.c07 import is_test_fn, forward_reach
@@ -41,9 +42,55 @@ def validation_seq(f):
     return out
 
 
+def varint_quantities(f):
+    """{local: 'V<k>'}: every local whose value derives from exactly one read_varint call site is named after the ORDINAL of that
+    call (k-th read_varint of the function, in source order) - the identity of a header quantity is where it was read, not what
+    the local holding it is called.  Tuples are followed field by field (`let (length, count) = if .. {(a, b)} else {(c, 1)}`)."""
+    sites = sorted((t["ln"], b) for b, t in f.calls() if (t.get("callee") or "").split("::")[-1] == "read_varint")
+    sites = [b for _, b in sites]
+    memo = {}
+
+    def origin(l, fld, seen):
+        k = (l, fld)
+        if k in memo:
+            return memo[k]
+        if k in seen or l <= f.nargs:
+            return set()
+        seen = seen | {k}
+        out = set()
+        for site in f.defs(l):
+            rv = f.def_rvalue(site)
+            if "call" in rv:
+                if (rv["call"].get("callee") or "").split("::")[-1] == "read_varint":
+                    out.add(site[0])
+                    continue
+                ops = rv["call"]["args"]
+            elif fld is not None and "agg" in rv and rv["agg"][0] == "tuple" and fld < len(rv["agg"][1]):
+                ops = [rv["agg"][1][fld]]
+            else:
+                ops = list(mir.rvalue_operands(rv)) + [{"cp": pl} for pl in mir.rvalue_places(rv)]
+            for o in ops:
+                pl = mir.op_place(o)
+                if pl:
+                    pf = None
+                    if pl["p"] and isinstance(pl["p"][0], dict) and "f" in pl["p"][0] and str(pl["p"][0]["f"]).isdigit():
+                        pf = int(pl["p"][0]["f"])
+                    out |= origin(pl["l"], pf, seen)
+        memo[k] = out
+        return out
+    m = {}
+    for l in range(f.nargs + 1, len(f.locals)):
+        if f.local_name(l):
+            o = origin(l, None, frozenset())
+            if len(o) == 1:
+                m[l] = "V%d" % sites.index(next(iter(o)))
+    return m
+
+
 def reject_tests(f):
-    """set of normalised conditions (over named locals) whose taken edge is an error return"""
+    """set of normalised conditions whose taken edge is an error return; header quantities are rendered V<k> (see above)"""
     f.status()
+    q = varint_quantities(f)
     out = set()
     for b in sorted(f.reachable_blocks()):
         if f.term(b)["k"] != "switch":
@@ -54,14 +101,15 @@ def reject_tests(f):
             continue
         for edge, cond in ((be[0], n), (be[1], negate(n))):
             if f.is_error_block(edge):
-                terms = {ALIAS.get(k, k): v for k, v in cond[0].items()}
-                out.add(show_norm((terms, cond[1], cond[2])))
+                out.add(f.unname(show_norm(cond), q))
     # branch tests that select the group form (not an error by themselves)
     for b in sorted(f.reachable_blocks()):
         if f.term(b)["k"] == "switch":
             n = compare_norm(f.switch_cond(b, deep=False))
-            if n and list(n[0]) == ["length_val"] and n[2] == ">0" and n[1] == 0:
-                out.add("branch:" + show_norm(n))
+            if n and len(n[0]) == 1 and n[2] == ">0" and n[1] == 0:
+                t = f.unname(show_norm(n), q)
+                if re.match(r"^[+-]V\d+ >0$", t):
+                    out.add("branch:" + t)
     return out
 
 
@@ -141,12 +189,17 @@ def run(ctx):
         if t["k"] == "call" and (t.get("callee") or "").endswith("checked_sub") and show(de.expr_op(t["args"][1])) == "2":
             subs.append("checked_sub(2)")
     negs = [1 for b, t in de.calls() if (t.get("callee") or "").endswith("checked_neg")]
-    ge2 = [show_norm(compare_norm(de.switch_cond(b, deep=False))) for b in de.reachable_blocks() if de.term(b)["k"] == "switch"
-           and compare_norm(de.switch_cond(b, deep=False)) and show_norm(compare_norm(de.switch_cond(b, deep=False))).startswith("+n -1 >0")]
+    qd = varint_quantities(de)
+    n_inst = len([1 for b_, t_ in de.calls() if (t_.get("callee") or "").split("::")[-1] == "read_varint"]) - 1   # the instruction is the last varint read
+    ge2 = [de.unname(show_norm(compare_norm(de.switch_cond(b, deep=False))), qd) for b in de.reachable_blocks() if de.term(b)["k"] == "switch"
+           and compare_norm(de.switch_cond(b, deep=False))]
+    ge2 = [t_ for t_ in ge2 if t_.startswith(f"+V{n_inst} -1 >0")]
     closure_sub = any((t.get("callee") or "").endswith("checked_sub") for p, g in cr.fns.items() if p.startswith(DE + "::{closure") for _, t in g.calls())
     ck.ob("R20b", DE + "|offsets", len([s for s in subs if "Sub 2" in s]) >= 1 and (closure_sub or "checked_sub(2)" in subs) and bool(negs) and bool(ge2),
           "atom index = n - 2 for n >= 2; pair index = (-n) - 2 otherwise", site=de.where(0), detail={"subs": subs, "n>=2 test": ge2})
-    gets = [b for b, t in de.calls() if (t.get("callee") or "").endswith("::get") and ("atoms" in show(de.expr_op(t["args"][0])) or "pairs" in show(de.expr_op(t["args"][0])))]
+    # the two node tables, by type: slices of NodePtr
+    gets = [b for b, t in de.calls() if (t.get("callee") or "").endswith("::get") and mir.op_place(t["args"][0])
+            and de.local_ty(mir.op_place(t["args"][0])["l"]).endswith("[allocator::NodePtr]")]
     ck.ob("R20b", DE + "|bounds", len(gets) == 2, "both table lookups are bounds-checked (get + error)", site=de.where(0), detail=len(gets))
     # writer side
     em = [f for p, f in cr.fns.items() if p.startswith("serde_2026::ser::emit_instructions") and f.d["kind"] != "Closure"]
@@ -157,7 +210,9 @@ def run(ctx):
         ck.analysed(f)
         for b in sorted(f.reachable_blocks()):
             t = f.term(b)
-            if t["k"] == "call" and (t.get("callee") or "").endswith("Vec::<T, A>::push") and "instructions" in show(f.expr_op(t["args"][0], deep=False)):
+            # the instruction list, by type: the Vec<i64>
+            if t["k"] == "call" and (t.get("callee") or "").endswith("Vec::<T, A>::push") and mir.op_place(t["args"][0]) \
+                    and "Vec<i64>" in f.local_ty(mir.op_place(t["args"][0])["l"]):
                 wtxt.append(show(f.expr_op(t["args"][1])))
     plus2 = [w for w in wtxt if w.endswith(" Add 2)") and "Neg" not in w]
     neg2 = [w for w in wtxt if w.startswith("Neg(") and " Add 2)" in w]
@@ -173,27 +228,87 @@ def run(ctx):
                 if st.get("d") and st["d"]["l"] == 0 and "use" in st["rv"] and "c" in st["rv"]["use"]:
                     vals.add(st["rv"]["use"]["c"].get("val"))
     ck.ob("R20b", "cons_opcode", vals == {1, -1}, "the cons opcode is +1 or -1", detail=sorted(vals))
-    # which operand order each opcode denotes in the reader: 1 -> right popped first ; -1 -> left popped first
+    # which operand order each opcode denotes in the reader.  Decided from WHERE the two children of the new pair come from
+    # (first or second value popped in that arm), not from local names; a private helper that pops two values is followed.
+    from lib.bounds import Eval
+
+    def unval(e):
+        while e[0] == "val":
+            e = e[2]
+        return e
+
+    def pop_site(fn, ev, e):
+        """('pop', block) if e is unwrap(pop(..)) / (pop(..) as Some).0 evaluated in fn"""
+        e = unval(e)
+        if e[0] == "call" and e[1].endswith("::unwrap") and e[2]:
+            inner = unval(e[2][0])
+            if inner[0] == "call" and inner[1].endswith("Vec::<T, A>::pop") and len(inner) > 3:
+                return inner[3][0]
+        if e[0] == "fld" and e[2] == "0" and unval(e[1])[0] == "dc" and unval(e[1])[2] == "Some":
+            inner = unval(unval(e[1])[1])
+            if inner[0] == "call" and inner[1].endswith("Vec::<T, A>::pop") and len(inner) > 3:
+                return inner[3][0]
+        return None
+
+    def helper_ranks(path):
+        """for a local fn returning Ok((x, y)) with x, y popped values: {tuple index: rank of the pop (1 = first)}"""
+        h = cr.fns.get(path)
+        if h is None:
+            return None
+        evh = Eval(h, cr)
+        for bb in h.reachable_blocks():
+            for st in h.stmts(bb):
+                rv = st.get("rv", {})
+                if st["d"]["l"] == 0 and "agg" in rv and isinstance(rv["agg"][0], dict) and rv["agg"][0].get("variant") == "Ok":
+                    tup = unval(evh.operand(rv["agg"][1][0], (bb, len(h.stmts(bb)))))
+                    if tup[0] == "agg" and tup[1] == "tuple" and len(tup[2]) == 2:
+                        sites = [pop_site(h, evh, x) for x in tup[2]]
+                        if None not in sites and sites[0] != sites[1]:
+                            first = sites[0] if h.dominates(sites[0], sites[1]) else sites[1]
+                            return {i: (1 if sx == first else 2) for i, sx in enumerate(sites)}
+        return None
     order = {}
+    evd = Eval(de, cr)
     for v, tgt in arms.items():
         if v == "otherwise":
             continue
         sv = v - (1 << 64) if v >= (1 << 63) else v
-        if sv in (1, -1):
-            names = []
-            reg = forward_reach(de, tgt)
-            for b in sorted(reg):
-                t = de.term(b)
-                if t["k"] == "call" and (t.get("callee") or "").endswith("::unwrap"):
-                    nm = de.local_name(t["dst"]["l"])
-                    if nm in ("left", "right"):
-                        names.append(nm)
-                if t["k"] == "call" and (t.get("callee") or "").endswith("Allocator::new_pair"):
-                    names.append("pair(" + ",".join(show(de.expr_op(a, deep=False)) for a in t["args"][1:]) + ")")
-                    break
-            order[sv] = names
-    ck.ob("R20b", DE + "|cons orders", order.get(1, [])[:3] == ["right", "left", "pair(left,right)"] and order.get(-1, [])[:3] == ["left", "right", "pair(left,right)"],
-          "opcode 1 pops right then left, opcode -1 pops left then right; both build (left . right)", site=de.where(sw) if sw is not None else None, detail=order)
+        if sv not in (1, -1):
+            continue
+        reg = forward_reach(de, tgt)
+        nps = [bb for bb in sorted(reg) if de.term(bb)["k"] == "call" and (de.term(bb).get("callee") or "").endswith("Allocator::new_pair")
+               and de.dominates(tgt, bb)]
+        if not nps:
+            order[sv] = "no new_pair in this arm"
+            continue
+        npb = nps[0]
+        ranks = []
+        for a_ in de.term(npb)["args"][1:]:
+            e = unval(evd.operand(a_, (npb, "T")))
+            sb = pop_site(de, evd, e)
+            if sb is not None:
+                others = [bb for bb in reg if de.term(bb)["k"] == "call" and (de.term(bb).get("callee") or "").endswith("Vec::<T, A>::pop")
+                          and de.dominates(tgt, bb) and de.dominates(bb, npb)]
+                ranks.append(1 + sum(1 for o in others if o != sb and de.dominates(o, sb)))
+                continue
+            # (helper(..)? ).k
+            r_ = None
+            if e[0] == "fld" and e[2] in ("0", "1"):
+                base = unval(e[1])
+                if base[0] == "fld" and base[2] == "0" and unval(base[1])[0] == "dc" and unval(base[1])[2] == "Continue":
+                    br = unval(unval(base[1])[1])
+                    if br[0] == "call" and br[1].endswith("Try>::branch"):
+                        hc = unval(br[2][0])
+                        if hc[0] == "call":
+                            hr = helper_ranks(hc[1])
+                            if hr:
+                                r_ = hr.get(int(e[2]))
+            ranks.append(r_)
+        order[sv] = ranks
+    # opcode 1: the right child was pushed last, so it is popped first: new_pair(second popped, first popped); opcode -1 the reverse
+    ck.ob("R20b", DE + "|cons orders", order.get(1) == [2, 1] and order.get(-1) == [1, 2],
+          "opcode 1 builds (second popped . first popped), opcode -1 builds (first popped . second popped)", site=de.where(sw) if sw is not None else None,
+          detail={str(k): v for k, v in order.items()})
 
     # ---------------------------------------------------------------- R20c
     pr = cr.fn(PROBE)
@@ -202,20 +317,21 @@ def run(ctx):
     ck.ob("R20c", "validation call sequence", s1 == s2 and len(s1) >= 9, "decoder and probe validate the header varints with the same calls in the same order",
           detail={"decoder": s1, "probe": s2})
     r1, r2 = reject_tests(de), reject_tests(pr)
-    hdr1 = {t for t in r1 if any(k in t for k in ("length", "count", "length_val", "instruction_count", "group"))}
-    hdr2 = {t for t in r2 if any(k in t for k in ("length", "count", "length_val", "instruction_count", "group"))}
+    hdr1 = {t for t in r1 if re.search(r"\bV\d", t)}
+    hdr2 = {t for t in r2 if re.search(r"\bV\d", t)}
     ck.ob("R20c", "rejection tests", hdr1 == hdr2 and len(hdr1) >= 5, "decoder and probe reject the same header values",
           detail={"decoder only": sorted(hdr1 - hdr2), "probe only": sorted(hdr2 - hdr1), "common": sorted(hdr1 & hdr2)})
     rets = []
     for b in pr.reachable_blocks():
         for st in pr.stmts(b):
             if st.get("d") and st["d"]["l"] == 0 and not st["d"]["p"]:
-                rets.append(show(pr.expr_rvalue(st["rv"], deep=False)))
-    ck.ob("R20c", PROBE + "|result", any(r.startswith("Ok(") and "position" in r and " Add " in r for r in rets),
+                rets.append(show(pr.expr_rvalue(st["rv"])))
+    ck.ob("R20c", PROBE + "|result", any(r.startswith("Ok(") and "::position(" in r and " Add " in r for r in rets),
           "the probe reports magic length + cursor position", site=pr.where(0), detail=[r for r in rets if r.startswith("Ok(")])
-    sk = [show_norm(compare_norm(pr.switch_cond(b, deep=False))) for b in pr.reachable_blocks() if pr.term(b)["k"] == "switch"
-          and compare_norm(pr.switch_cond(b, deep=False)) and "new_pos" in show_norm(compare_norm(pr.switch_cond(b, deep=False)))]
-    ck.ob("R20c", PROBE + "|skip bound", len(sk) == 1 and "+new_pos" in sk[0] and "-len(data)" in sk[0] and sk[0].endswith(" >0"),
+    # the new cursor position (position() + skip, by provenance) is compared with the length of the data
+    sk = [show_norm(compare_norm(pr.switch_cond(b))) for b in pr.reachable_blocks() if pr.term(b)["k"] == "switch"
+          and compare_norm(pr.switch_cond(b)) and "::position(" in show_norm(compare_norm(pr.switch_cond(b))) and "len(" in show_norm(compare_norm(pr.switch_cond(b)))]
+    ck.ob("R20c", PROBE + "|skip bound", len(sk) == 1 and re.search(r"\+\S*checked_add\(\S*::position\(", sk[0]) is not None and " -len(" in sk[0] and sk[0].endswith(" >0"),
           "skipping atom bodies is bounded by the data length (truncated blobs are rejected like read_exact does)", site=pr.where(0), detail=sk)
 
     # ---------------------------------------------------------------- R20d
@@ -261,41 +377,7 @@ def run(ctx):
     ck.floor("allocation sites in the 2026 decoder", n_alloc, 2)
 
     # ---------------------------------------------------------------- R20e
-    wv, vs = cr.fn("serde_2026::varint::write_varint"), cr.fn("serde_2026::varint::varint_size")
-    rd = cr.fn("serde_2026::varint::read_varint")
-    ck.analysed(wv, vs, rd)
-
-    def accept_conds(f, emit_pred):
-        out = set()
-        emit_blocks = {b for b in f.reachable_blocks() if emit_pred(f, b)}
-        for b in sorted(f.reachable_blocks()):
-            if f.term(b)["k"] != "switch":
-                continue
-            n = compare_norm(f.switch_cond(b, deep=False))
-            if not n or not any(k in ("min_value", "max_value") for k in n[0]):
-                continue
-            be = f.bool_edges(b)
-            t_acc = bool(forward_reach(f, be[0]) & emit_blocks)
-            f_acc = bool(forward_reach(f, be[1]) & emit_blocks)
-            if t_acc and not f_acc:
-                out.add(show_norm(n))
-            elif f_acc and not t_acc:
-                out.add(show_norm(negate(n)))
-            else:
-                out.add("ambiguous:" + show_norm(n))
-        return out
-    a1 = accept_conds(wv, lambda f, b: f.term(b)["k"] == "call" and (f.term(b).get("raw") or "").endswith("Write::write_all"))
-    a2 = accept_conds(vs, lambda f, b: any(st.get("d") and st["d"]["l"] == 0 for st in f.stmts(b)))
-    want = {"-min_value +value +1 >0", "+max_value -value +1 >0"}
-    ck.ob("R20e", "range tests", a1 == a2 == want, "write_varint and varint_size accept exactly min_value <= value <= max_value",
-          detail={"write_varint": sorted(a1), "varint_size": sorted(a2)})
-    forms = {}
-    for f in (wv, vs, rd):
-        for nm in ("total_value_bits", "min_value", "max_value"):
-            for l in f.local_by_name(nm):
-                for s in f.defs(l):
-                    forms.setdefault(nm, {}).setdefault(f.path.split("::")[-1], set()).add(show(f.expr_rvalue(f.def_rvalue(s), deep=False)))
-    okf = all(len({frozenset(v) for v in per.values()}) == 1 for per in forms.values()) and \
-        forms.get("total_value_bits", {}).get("write_varint") == {"(7 Add (7 Mul leading_ones))"}
-    ck.ob("R20e", "bit widths", okf, "all three varint functions use 7 + 7k value bits and the same min/max expressions",
-          detail={k: {f: sorted(v) for f, v in per.items()} for k, per in forms.items()})
+    # writer and strict-size function share one range table: decided by the (name-free) rule of C21
+    from rules import c21
+    ck.analysed(cr.fn("serde_2026::varint::write_varint"), cr.fn("serde_2026::varint::varint_size"))
+    c21.range_table(ck, cr, "R20e")
